@@ -32,7 +32,7 @@ class Item:
                 "answers": {k: sx.to_sexp(v[1]) for k, v in self.answers.items()}}
 
 
-def fragment_items(rng, n_programs, n_ground=4, n_closed=4, n_exists=5, shapes=None, corpus=True, extra=()):
+def fragment_items(rng, n_programs, n_ground=4, n_closed=4, n_exists=5, shapes=None, corpus=True, extra=(), neg_ring=False):
     """(programs, items): programs = list of Prog, items = list of Item.
     extra: [(shape function, count)] — additional programs of specific shapes; shapes that set
     `Prog.fixed_goals` are posed exactly those goals (plus at most 2 generated `exists` goals
@@ -48,7 +48,7 @@ def fragment_items(rng, n_programs, n_ground=4, n_closed=4, n_exists=5, shapes=N
                 continue
             items.append(Item(pidx, p, text, g, pg.goal_text(g), p.shape, pg.goal_kind(g)))
     if corpus:
-        for p, goals in pg.corpus():
+        for p, goals in pg.corpus(neg_ring):
             add(p, goals)
     for _ in range(n_programs):
         p = pg.gen_program(rng, shapes)
